@@ -256,7 +256,7 @@ def normalize(prog, protect=(), config="default"):
     missing = {i: v for i, v in base.items() if i not in prog.fns}
     renamed = set()
     for f in sorted(new, key=lambda x: x.id):
-        for gid, (owner, trait, inputs, output) in sorted(missing.items()):
+        for gid, (owner, trait, inputs, output, *_rest) in sorted(missing.items()):
             if owner == f.impl_self_adt and trait is None and inputs == f.inputs and output == f.output and _module_of(gid) == _module_of(f.id):
                 renamed.add(f.id)
                 del missing[gid]
@@ -789,3 +789,64 @@ def strip_debug_asserts(prog):
         prog.replace_fn(Fn(fn.crate, raw))
         n += 1
     return n
+
+
+
+def normalize_param_order(prog, config="default"):
+    """A private function whose parameters were merely re-ordered (same id, same multiset of parameter types) is
+    rewritten back to the committed order - in its body and at every call site - so that rules that address
+    `argument 2 of the bucket store` keep addressing the same thing.  Parameters are matched by type and, where several
+    share a type, by name; if that is not unambiguous nothing is rewritten."""
+    base = load_baseline(config)
+    if base is None:
+        return []
+    done = []
+    for fn in list(prog.fns.values()):
+        if fn.crate != "abyssiniandb" or fn.id not in base or len(base[fn.id]) < 5:
+            continue
+        owner, trait, old_inputs, output, old_names = base[fn.id]
+        if fn.inputs == old_inputs or sorted(fn.inputs) != sorted(old_inputs) or len(fn.inputs) != fn.arg_count or len(old_names) != len(old_inputs):
+            continue
+        new_names = [fn.locals[i].get("name") for i in range(1, fn.arg_count + 1)]
+        perm = {}          # old position (0-based) -> new position
+        used = set()
+        ok = True
+        for i, (ty, nm) in enumerate(zip(old_inputs, old_names)):
+            cands = [j for j, t2 in enumerate(fn.inputs) if t2 == ty and j not in used]
+            if len(cands) > 1:
+                byname = [j for j in cands if new_names[j] == nm and nm is not None]
+                cands = byname if len(byname) == 1 else []
+            if len(cands) != 1:
+                ok = False
+                break
+            perm[i] = cands[0]
+            used.add(cands[0])
+        if not ok or all(i == j for i, j in perm.items()):
+            continue
+        # body: local (new position j + 1) becomes (old position i + 1)
+        lm_tab = {perm[i] + 1: i + 1 for i in perm}
+        lm = lambda l: lm_tab.get(l, l)
+        raw = copy.deepcopy(fn.raw)
+        raw["blocks"] = [_map_block(blk, lm, lambda x: x) for blk in raw["blocks"]]
+        locs = list(raw["locals"])
+        for i in perm:
+            raw["locals"][i + 1] = locs[perm[i] + 1]
+        raw["inputs"] = list(old_inputs)
+        prog.replace_fn(Fn(fn.crate, raw))
+        # call sites
+        for caller in list(prog.fns.values()):
+            if caller.crate != "abyssiniandb":
+                continue
+            sites = [b for b, t in caller.calls() if len(t["args"]) == len(old_inputs) and any(x.id == fn.id for x in prog.targets(t, caller)[0])
+                     and len(prog.targets(t, caller)[0]) == 1]
+            if not sites:
+                continue
+            craw = copy.deepcopy(caller.raw)
+            for b in sites:
+                t = craw["blocks"][b]["term"]
+                t["args"] = [t["args"][perm[i]] for i in range(len(old_inputs))]
+                if t.get("arg_tys") and len(t["arg_tys"]) == len(old_inputs):
+                    t["arg_tys"] = [t["arg_tys"][perm[i]] for i in range(len(old_inputs))]
+            prog.replace_fn(Fn(caller.crate, craw))
+        done.append(fn.id)
+    return done
